@@ -1064,6 +1064,7 @@ func TestVerifC18(t *testing.T) {
 
 	vC18Corpus(o)
 	vC18SizeBoundary(o, &vRand{s: o.seed*104729 + 17})
+	vC18XStream(o, &vRand{s: o.seed*15485863 + 29})
 
 	// ---------- modelled fragment: attributes
 	nAttr := 10000
@@ -1288,9 +1289,11 @@ func TestVerifC18(t *testing.T) {
 			o.stat("all_attr_"+vC18TypeName(c.attr), 1)
 			w, err := c.attr.Serialize()
 			report(vC18OracleAttr(c.attr, vC18BaseName(c.name)))
+			vC18XAsk(o, c.attr)
 			if err == nil {
 				if d := vC18DecodeAttr(w); d != nil && vC18SameWire(d, w) {
 					o.stat("all_attr_decoded", 1)
+					vC18XAsk(o, d)
 					report(vC18OracleAttr(d, vC18BaseName(c.name)+"(decoded)"))
 				}
 			}
